@@ -153,6 +153,23 @@ Theorem C27_spec_roundtrip : forall m rest,
 Proof. exact spec_decode_encode_thm. Qed.
 Print Assumptions C27_spec_roundtrip.
 
+Theorem C27_spec_startup_framing : forall b m rest,
+  spec_decode_startup b = OMsg m rest ->
+  exists frame, b = frame ++ rest /\ blen frame = startup_declared_len b /\ 8 <= startup_declared_len b.
+Proof. exact spec_startup_framing_thm. Qed.
+Print Assumptions C27_spec_startup_framing.
+
+Theorem C27_spec_startup_progress : forall b,
+  spec_decode_startup b = ONeedMore <->
+  (blen b < 4 \/ (8 <= startup_declared_len b /\ blen b < startup_declared_len b)).
+Proof. exact spec_startup_progress_thm. Qed.
+Print Assumptions C27_spec_startup_progress.
+
+Theorem C27_spec_startup_roundtrip : forall m rest,
+  wf_frontend m = true -> is_startup_kind m = true -> spec_decode_startup (enc_frontend m ++ rest) = OMsg m rest.
+Proof. exact spec_startup_roundtrip_thm. Qed.
+Print Assumptions C27_spec_startup_roundtrip.
+
 (** ** 6. segmentation: the answer of the real decoder depends on how the bytes were cut — FALSE in
     general, TRUE for streams of well-formed frames under every chunking *)
 Theorem C27_chunking_refuted :
